@@ -13,8 +13,8 @@ BASE=$(/verif/tools/baseline.sh "$WT" | head -1)
 DEMO_WITH=""; DEMO_WITHOUT=""
 for v in 3.7.16 3.8.18 3.9.18 3.10.13 3.11.7; do
   if [ -f "$SEED/demo.py" ]; then
-    PYTHONDONTWRITEBYTECODE=1 PYTHONHASHSEED=0 PYTHONPATH=$WT:/tmp/shim timeout 300 /root/.pyenv/versions/$v/bin/python "$SEED/demo.py" >/dev/null 2>&1; a=$?
-    PYTHONDONTWRITEBYTECODE=1 PYTHONHASHSEED=0 PYTHONPATH=/repo:/tmp/shim timeout 300 /root/.pyenv/versions/$v/bin/python "$SEED/demo.py" >/dev/null 2>&1; b=$?
+    PYTHONDONTWRITEBYTECODE=1 PYTHONHASHSEED=0 PYTHONPATH=$WT:/verif/mc/shim timeout 300 /root/.pyenv/versions/$v/bin/python "$SEED/demo.py" >/dev/null 2>&1; a=$?
+    PYTHONDONTWRITEBYTECODE=1 PYTHONHASHSEED=0 PYTHONPATH=/repo:/verif/mc/shim timeout 300 /root/.pyenv/versions/$v/bin/python "$SEED/demo.py" >/dev/null 2>&1; b=$?
     DEMO_WITH="$DEMO_WITH $v:$a"; DEMO_WITHOUT="$DEMO_WITHOUT $v:$b"
   fi
 done
